@@ -201,17 +201,21 @@ impl<'a, R: RealNumberInternalTrait> Interpreter<'a, R> {
             library_name!("ruschm", "write"),
             Box::new(native::write::library_map),
         ));
+        // the bundled libraries are read without locations: an error raised inside them is reported
+        // at the user's form, not at a line of a file the user never sees
         self.register_library_factory(
-            LibraryFactory::from_char_stream(
+            LibraryFactory::from_lexer(
                 &library_name!("scheme", "base"),
-                include_str!("library/include/scheme/base.sld").chars(),
+                Lexer::from_char_stream(include_str!("library/include/scheme/base.sld").chars())
+                    .without_locations(),
             )
             .unwrap(),
         );
         self.register_library_factory(
-            LibraryFactory::from_char_stream(
+            LibraryFactory::from_lexer(
                 &library_name!("scheme", "write"),
-                include_str!("library/include/scheme/write.sld").chars(),
+                Lexer::from_char_stream(include_str!("library/include/scheme/write.sld").chars())
+                    .without_locations(),
             )
             .unwrap(),
         );
